@@ -64,12 +64,15 @@ func runSolver(sp solverSpec, file string, timeoutS int, seed int) SolveResult {
 
 // runCover runs a reachability query: E-matching only (a contradiction among the assumptions shows up as unsat quickly),
 // then the default configuration for a possible sat answer.
-func runCover(file string, timeoutS int, seed int) SolveResult {
+func runCover(file string, timeoutS int, seed int, deep bool) SolveResult {
 	sp := solverSpec{"z3-new", func(f string, t int, seed int) []string {
 		return []string{"z3-new", fmt.Sprintf("-T:%d", t), "smt.mbqi=false", f}
 	}}
 	r := runSolver(sp, file, timeoutS, seed)
 	if r.Verdict == "unsat" || r.Verdict == "sat" {
+		return r
+	}
+	if !deep {
 		return r
 	}
 	r2 := runSolver(solvers[2], file, timeoutS, seed) // cvc5 enumerative instantiation finds inconsistent axiom sets
